@@ -201,15 +201,28 @@ def main(tier):
         stats["race_build"] = "unavailable"
     else:
         d, files = make_project(root, "race", rng, n_mods=6)
-        for procs in ((1, 2, 4, 16, 16, 16) if thorough else (2, 16, 16)):
+        # directory-walk order differs from string order (app/ vs app.py, core/ vs core-utils/): any in-place reordering
+        # or mutation of the file list shared by the analysis goroutines then really writes
+        for sub in ("app", "core", "core-utils"):
+            os.makedirs(os.path.join(d, sub))
+            for nm in ("zeta.py", "alpha.py"):
+                with open(os.path.join(d, sub, nm), "w") as f:
+                    f.write("def %s_%s(x):\n    if x:\n        return 1\n    return 2\n" % (sub.replace("-", "_"), nm[:-3]))
+        with open(os.path.join(d, "app.py"), "w") as f:
+            f.write("import os\n\ndef app_main(v):\n    for i in range(v):\n        if i:\n            continue\n    return v\n")
+        unsorted_targets = ["gen2.py", "core-utils", "app.py", "classes.py", "app", "gen0.py", "core", "ledger.py", "gen1.py"]
+        plans = [(2, ["."]), (16, ["."]), (16, unsorted_targets), (16, ["."]), (4, unsorted_targets)]
+        if thorough:
+            plans += [(1, ["."]), (16, list(reversed(unsorted_targets))), (16, ["."]), (8, unsorted_targets), (16, ["."])]
+        for procs, targets in plans:
             shutil.rmtree(os.path.join(d, ".pyscn"), ignore_errors=True)
-            p = subprocess.run([race_bin, "analyze", "--json", "--no-open", "."], cwd=d, stdout=subprocess.PIPE, stderr=subprocess.PIPE, text=True,
+            p = subprocess.run([race_bin, "analyze", "--json", "--no-open"] + targets, cwd=d, stdout=subprocess.PIPE, stderr=subprocess.PIPE, text=True,
                                timeout=600, env=dict(os.environ, GOMAXPROCS=str(procs)))
             stats["race_runs"] += 1
             if "DATA RACE" in p.stderr:
                 i = p.stderr.index("DATA RACE")
-                ck.violation("the race detector reports a data race in the concurrent analyses (GOMAXPROCS=%d)" % procs,
-                             {"kind": "race", "report": p.stderr[max(0, i - 100):i + 3000]})
+                ck.violation("the race detector reports a data race in the concurrent analyses (GOMAXPROCS=%d, targets %s)" % (procs, targets),
+                             {"kind": "race", "targets": targets, "report": p.stderr[max(0, i - 100):i + 3000]})
                 break
     ck.samples = [{"project_files": files, "selects": ["complexity", "deadcode", "clones", "cbo", "lcom", "deps"]}]
     ck.cov.update({
